@@ -22,7 +22,7 @@ PLAN  = {"quick":    {"shards": 16, "cases": 32,  "timeout": 1500, "budget_s": 1
          "thorough": {"shards": 16, "cases": 320, "timeout": 7000, "budget_s": 1500, "points": 400, "mp_every": 25}}
 REQUIRED = ["oracle.resumed==reference", "oracle.no-recorded-triple-reevaluated", "oracle.pending-evaluated-once", "oracle.no-duplicate-record",
             "oracle.from_file==returned", "crash.record-boundary", "crash.inside-record", "crash.gz", "kill.prefix-model-validated",
-            "resume.multiproc", "big-log.cases", "observed.logs-with-non-ascii-params", "oracle.from_file-on-killed-file", "logs.records-in-arrival-order-of-several-workers"]
+            "resume.multiproc", "big-log.cases", "big-record.cases", "big-record.records", "observed.logs-with-non-ascii-params", "oracle.from_file-on-killed-file", "logs.records-in-arrival-order-of-several-workers"]
 ASSUMPTIONS = ["a killed run leaves a byte-prefix of the log it would have written (validated by the real-kill runs: append only, flush per line, single writer)",
                "only complete records count as recorded; parameter records (E/L/V) may legitimately be written again"]
 
@@ -175,6 +175,15 @@ def check_case(case, ctx=None, only_points=None):
             points = sorted({(e, "record-boundary") for _, e, _ in tail[:-1]} | {((s_ + e_) // 2, "gz-body" if gz else "inside-record-middle") for s_, e_, _ in tail}
                             | {(recs[len(recs) // 2][0] + 3, "gz-header" if gz else "inside-record-first")})
             note("big-log.records", len(recs))
+        elif case.get("bigrec") and only_points is None:
+            points = set()
+            for s_, e_, r_ in recs:
+                if e_ - s_ < 16384: continue
+                note("big-record.records")
+                for off in (1, 100, 4095, 4096, 4097, 8191, 8192, 8193, 8300, 12000, 16385, (e_ - s_) // 2, e_ - s_ - 8193, e_ - s_ - 8192, e_ - s_ - 100, e_ - s_ - 2, e_ - s_ - 1):
+                    if 0 < off < e_ - s_: points.add((s_ + off, ("gz-body" if gz else "inside-record-deeper-than-a-buffer" if off > 8192 else "inside-record-middle")))
+                points.add((e_, "record-boundary"))
+            points = sorted(points)
         else:
             points = _crash_points(rng, blob, recs, gz, budget) if only_points is None else only_points
         if ctx is not None and ctx.extra.get("n_logs", 0) < 1:
@@ -304,7 +313,24 @@ def big_log_case(rng):
             "vals": [{"kind": "rec", "tag": "V0", "seed": 1, "nrows": 1}], "seed": 1, "triples": "cross"}
     return {"spec": spec, "gz": rng.random() < .5, "seed": rng.randrange(1 << 30), "big": True}
 
+def big_record_case(rng, gz=False):
+    """a log holding records of several buffer sizes (one evaluation of 1500 interactions is ONE record of > 40 KB): crash points at
+    every depth class inside such a record (first bytes, around the 4 KB / 8 KB buffer sizes on either side, deep inside, last bytes)"""
+    spec = {"groups": [{"kind": "lambda", "n": 1500, "seed": 1, "tag": "g0", "filters": []}],
+            "lrns": [{"kind": "stateful-a", "tag": f"L{i}", "seed": 1} for i in range(3)],
+            "vals": [{"kind": "rec", "tag": "V0", "seed": 1, "nrows": 1500}], "seed": 1, "triples": "cross"}
+    return {"spec": spec, "gz": gz, "seed": rng.randrange(1 << 30), "bigrec": True}
+
 def run_shard(ctx):
+    if ctx.shard == 1 or (ctx.tier == "thorough" and 4 <= ctx.shard < 8):
+        case = big_record_case(ctx.rng, gz=(ctx.shard % 2 == 0))      # quick: one plain log; thorough: two plain, two gz
+        try:
+            v = check_case(case, ctx)
+            ctx.count("big-record.cases")
+        except Exception as e:
+            import traceback
+            v = [(f"reference-run/raised:{type(e).__name__}/big-record", f"{e} {traceback.format_exc()[-600:]}")]
+        for sig, what in v: ctx.violation(sig + ("/big-record" if not sig.endswith("/big-record") else ""), what, case)
     if ctx.shard == 0 or (ctx.tier == "thorough" and ctx.shard < 4):
         case = big_log_case(ctx.rng)
         # crash points near the end of the log: inside the last records and at their boundaries
